@@ -385,7 +385,26 @@ def _refusal(n):
     return v is None or (isinstance(v, ast.Constant) and v.value in (False, None))
 
 
+def rule_pss_only(ctx):
+    """PSS-ONLY: a key whose certificate restricts it to RSASSA-PSS (key_type "rsa-pss") verifies no
+    PKCS#1 v1.5 signature, whatever the hash: for each (key type, padding, hash) the PKCS#1 v1.5
+    comparison is reached only for an unrestricted key with pkcs1 padding (condeval.outcomes)."""
+    from .common import spec_rows
+    R = "C10.PSS-ONLY"
+
+    def v15(st):
+        return any(call_name(c) == "_raw_pkcs1_verify" for c in calls_in(st))
+    spec_rows(ctx, R, "utils.rsakey:RSAKey.verify", [
+        dict(what="PKCS#1 v1.5 verification only with an unrestricted RSA key and pkcs1 padding",
+             dom={"padding": ["pkcs1", "pss"], "self.key_type": ["rsa", "rsa-pss"], "hashAlg": ["sha1", "sha256", None]},
+             abort=lambda e: False,
+             effects={"PKCS#1 v1.5 comparison": (v15, lambda e: e["padding"] == "pkcs1" and e["self.key_type"] != "rsa-pss")},
+             msg="an rsa-pss key must refuse every PKCS#1 v1.5 signature (RFC 8446 4.2.3, RFC 4055), an rsa key "
+                 "must check it")])
+
+
 RULES = [
+    ("C10.PSS-ONLY", "quick", rule_pss_only),
     ("C10.DER-REST", "quick", rule_der_rest),
     ("C10.NEG-VERSION", "quick", rule_negotiated_version),
     ("C10.SIGN-VERIFY", "quick", rule_sign_verify),
